@@ -39,7 +39,7 @@ def oracle_core(pid, case, accepted, set_ok, set_errs, solve_errs, calls, sig=No
     if pid == "C05":
         if (dups or nested_dups) and accepted:
             out_msgs.append("types %s have two sources in the closure but the set was accepted" % sorted(dups))
-        if dups and not nested_dups and not set_ok and not cyc and not bad_binds and not item_errs:
+        if dups and not nested_dups and not accepted and not cyc and not bad_binds and not item_errs:
             named = {d[1] for d in set_errs if d[0] == "DMulti"}
             if not (named & dups):
                 out_msgs.append("duplicated types %s, but no multiple-bindings error names one of them (got %s)" % (sorted(dups), set_errs))
@@ -374,6 +374,7 @@ import formeng
 import probeeng
 import deteng
 import multieng
+import layouteng
 eng_determinism = deteng.eng_determinism
 eng_copyprobe = probeeng.eng_copyprobe
 eng_valuetable = probeeng.eng_valuetable
@@ -383,11 +384,12 @@ eng_cli = clieng.eng_cli
 engprog.props_oracle_core = oracle_core
 eng_prog = engprog.eng_prog
 eng_multi = multieng.eng_multi
+eng_layouts = layouteng.eng_layouts
 
 WF_NOTE = "the well-formedness of every accepted provider map (wfb) is proved (C05_accepted_maps_well_formed); the correspondence run still evaluates it per accepted case as a redundant check"
 SYNTH_NOTE = "explicit loop bounds of the model (acyc_fuel, solve_fuel) are validated by the correspondence run; the theorems hold for whatever fuel completes the run"
 PROPS = {
-    "C01": {"level_text": "Machine-checked proof in Coq 8.16.1 over an executable model tied to the code by a per-run correspondence; the emission model and the name-freshness theorems are proved; that the emitted package compiles under Go's type checker is established by compiling every accepted program of the corpus (partial).", "theorems": ["C01_one_implementation", "C14_names_distinct", "C14_invented_names_fresh"], "engines": [eng_prog, eng_zerovalue, eng_multi],
+    "C01": {"level_text": "Machine-checked proof in Coq 8.16.1 over an executable model tied to the code by a per-run correspondence; the emission model and the name-freshness theorems are proved; that the emitted package compiles under Go's type checker is established by compiling every accepted program of the corpus (partial).", "theorems": ["C01_one_implementation", "C14_names_distinct", "C14_invented_names_fresh"], "engines": [eng_prog, eng_zerovalue, eng_multi, eng_layouts],
             "assumptions": ["partial: Go's full type checker and types.TypeString are not modelled; that the package compiles is established by go build on every accepted program"]},
     "C02": {"theorems": ["C02_wiring_accepted", "C02_machine_refines_visit", "C06_accepted_is_complete_accepted", "C05_accepted_maps_well_formed"], "engines": [eng_synth, eng_prog, eng_multi], "assumptions": [SYNTH_NOTE, WF_NOTE, "emission of the planned calls and the run-time behaviour are tied by the emitted-lines correspondence and the runtime traces"]},
     "C03": {"theorems": ["C03_failure"], "engines": [eng_prog],
@@ -402,14 +404,14 @@ PROPS = {
     "C08": {"theorems": ["C08_used_exactly", "C08_unused_reported_exactly", "C08_called_is_used", "C08_used_have_source"], "engines": [eng_synth, eng_prog, eng_multi], "assumptions": [SYNTH_NOTE]},
     "C09": {"theorems": ["C09_results", "C09_rejects", "C09_identical_types_rejected"], "engines": [eng_funcoutput, eng_prog],
             "assumptions": ["result kinds are abstracted to what funcOutput can distinguish (identity with error / func())"]},
-    "C10": {"theorems": ["C10_analysis_order_independent", "C10_solve_depends_on_lookups_only", "C10_phase_order_independent", "C05_never_picks"], "engines": [eng_synth, eng_prog, eng_multi], "assumptions": [SYNTH_NOTE]},
+    "C10": {"theorems": ["C10_analysis_order_independent", "C10_solve_depends_on_lookups_only", "C10_phase_order_independent", "C05_never_picks"], "engines": [eng_synth, eng_prog, eng_multi, eng_layouts], "assumptions": [SYNTH_NOTE]},
     "C11": {"theorems": ["C11_colocated", "C11_shared_instance", "C02_wiring_accepted"], "engines": [eng_synth, eng_prog, eng_forms], "assumptions": [SYNTH_NOTE, "Go's method-set rule (types.Implements) is go/types' and is not modelled"]},
     "C12": {"theorems": ["C12_check_field_sound", "C12_star_selects_unprevented", "C12_struct_provider_outputs"], "engines": [eng_prog, eng_forms],
             "assumptions": ["field names are ASCII; strconv.Quote and strings.EqualFold are modelled on ASCII identifiers", "FieldsOf name resolution shares checkField; its front end is exercised through the binary only"]},
-    "C13": {"theorems": ["C13_whitelist_sound", "C13_whitelist_complete"], "engines": [eng_valuetable, eng_forms, eng_copyprobe, eng_prog],
+    "C13": {"theorems": ["C13_whitelist_sound", "C13_whitelist_complete"], "engines": [eng_valuetable, eng_forms, eng_copyprobe, eng_prog, eng_layouts],
             "assumptions": ["expression trees are abstracted to the node kinds processValue distinguishes; the mapping from Go syntax to kinds is the table's (hand-written per form)",
                             "evaluation once at package initialisation is Go's semantics of package-level variables, not modelled"]},
-    "C14": {"theorems": ["C14_names_distinct", "C14_file_names_distinct", "C14_emitted_pass_names_fresh", "C14_invented_names_fresh", "C14_disambiguate_fresh", "C16_collision_order_independent"], "engines": [eng_prog, eng_multi],
+    "C14": {"theorems": ["C14_names_distinct", "C14_file_names_distinct", "C14_emitted_pass_names_fresh", "C14_invented_names_fresh", "C14_disambiguate_fresh", "C16_collision_order_independent"], "engines": [eng_prog, eng_multi, eng_layouts],
             "assumptions": ["identifiers are ASCII in the model; non-ASCII names are outside the generated corpus"]},
     "C15": {"level_text": "Machine-checked proof in Coq 8.16.1 over an executable model tied to the code by a per-run correspondence; the copy is proved to be the identity for any complete table and the table is regenerated from copyAST each run; the capture-avoiding renaming is exercised, not modelled (partial).", "theorems": ["C15_copy_identity", "C15_missing_field_is_lost"], "engines": [eng_copyprobe, eng_copydecls],
             "assumptions": ["partial: the capture-avoiding renaming of rewritePkgRefs is exercised by the declaration corpus (structure + behaviour), not modelled in Coq",
